@@ -23,7 +23,7 @@ theorem nodup_reverse' {l : List (Iv Int)} (h : l.Nodup) : l.reverse.Nodup := by
   rw [List.pairwise_reverse]
   exact h.imp Ne.symm
 
-theorem eraseCore_spec (t : ITier Int) (hwf : t.WF) (hn : NoClose t.es) (a b : Int) (hab : a < b)
+theorem eraseCore_spec (t : ITier Int) (hwf : t.WF) (a b : Int) (hab : a < b)
     (mode : EraseMode) (hm : mode ≠ .error) :
     ∃ t', eraseCore t (t.es.filter (ov a b)) a b mode = .ok t' ∧ IsErased a b mode t t' := by
   have hnd : t.es.Nodup := nodup_of_wf t.es hwf.pos hwf.disj.setDisj
@@ -53,7 +53,7 @@ theorem eraseCore_spec (t : ITier Int) (hwf : t.WF) (hn : NoClose t.es) (a b : I
     -- deleting the matches
     have hdel : deleteIvs t.es (t.es.filter (ov a b)).reverse =
         .ok ((t.es.filter (ov a b)).reverse.foldl (fun acc m => acc.erase m) t.es) :=
-      deleteIvs_of_mem t.es _ hn hnd
+      deleteIvs_of_mem t.es _ hnd
         (fun m hm' => (List.mem_filter.1 (List.mem_reverse.1 hm')).1)
         (nodup_reverse' (hnd.filter _))
     have key : ∀ y, y ∈ (t.es.filter (ov a b)).reverse.foldl (fun acc m => acc.erase m) t.es ↔
